@@ -66,6 +66,12 @@ impl<'a> Iterator for TrieEntryIter<'a> {
             // Unwrap is safe: access is always in bounds
             // It is optimized away: https://rust.godbolt.org/z/va9K3az4n
             let k = self.data.get(i).unwrap();
+            // 0 is the terminator label of the double array and is never a part of a key.
+            // Unused (all zero) units would accept it without leaving the current node,
+            // so a NUL byte in the input must stop the traversal.
+            if *k == 0 {
+                return None;
+            }
             node_pos ^= *k as usize;
             unit = self.get(node_pos) as usize;
             if Trie::label(unit) != *k as usize {
